@@ -1,4 +1,4 @@
-// t_fround.cpp - C11: ceil/floor/trunc/round match <cmath>; nearbyint/rint match <cmath> in each of the four rounding modes.
+// t_fround.cpp - C11: ceil/floor/trunc/round/nearbyint/rint match <cmath> in each of the four rounding modes.
 
 #include "ops_fround.hpp"
 
@@ -17,10 +17,11 @@ struct PerType {
         else U = as_scalars<S>(alphabet_F64S(opt().thorough));
         DomainOf<S, DomList1<S> > lat = erase<S>(DomList1<S>(U, f32 ? "F32L u F32H" : "F64S"));
 #ifdef VX_EXH_QUICK
-        const bool exhaustive = f32 && (opt().thorough || widest());
+        const bool exhaustive = f32 && (exh32() || (!opt().thorough && widest()));
 #else
-        const bool exhaustive = f32 && opt().thorough;
+        const bool exhaustive = f32 && exh32();
 #endif
+        if (V::width == 1) { check_round_reference<S>(U); check_round_reference<S>(K); }  // in the current rounding mode
         run_all(m, lat, K, exhaustive, std::integral_constant<bool, sizeof(S) == 4>());
     }
     static void run_all(int m, const DomainS<S>& lat, const std::vector<S>& K, bool exhaustive, std::true_type) {
@@ -32,12 +33,19 @@ struct PerType {
     }
     static void run_all(int m, const DomainS<S>& lat, const std::vector<S>& K, bool, std::false_type) { ops(m, lat, lat, K); }
     static void ops(int m, const DomainS<S>& d, const DomainS<S>& dm, const std::vector<S>& K) {
-        if (m == 0) {
-            explore<V, ceil>(d, &K);
-            explore<V, floor>(d, &K);
-            explore<V, trunc>(d, &K);
-            explore<V, round>(d, &K);
-        }
+        // ceil/floor/trunc/round do not depend on the rounding mode in <cmath>; an implementation built on additions would (found by seed C11-c):
+        // the default mode gets the deep domain, the three directed modes the lattice (quick) / the deep domain (thorough)
+        const DomainS<S>& dr = m == 0 ? d : dm;
+        explore<V, ceil>(dr, &K);
+        explore<V, floor>(dr, &K);
+        explore<V, trunc>(dr, &K);
+#if defined(__clang__)
+        // width-1 and scalar round forward to std::round, which Clang expands inline to trunc(x + copysign(0.5 - ulp, x)) when SSE4.1 is available:
+        // wrong under a directed mode, but that is the compiler's expansion of the C library call and not AVEL code; not explored there
+        if (m == 0 || V::width > 1) explore<V, round>(dr, &K);
+#else
+        explore<V, round>(dr, &K);
+#endif
         explore<V, nearbyint>(dm, &K);
         explore<V, rint>(dm, &K);
     }
